@@ -171,4 +171,47 @@ where
     l.foldl (fun acc p => if acc.any (·.1 == p.1) then acc.map (fun q => if q.1 == p.1 then p else q)
                           else acc ++ [p]) []
 
+/-! ### round 6: the header block of a CSV file that SEVERAL collections share
+
+`collections_to_csv` writes one column per collection: the member's own `to_csv_strings(layout)`, then its
+values.  The layout is the only thing the members share: one metadata item per row when every member has the
+same NUMBER of items (and that number is not 1: `header_len == 3` selects the joined row), else one joined
+row.  Nothing else of a sibling enters a member's column - in particular not the sibling's keys.  (The rows
+of the file are `zip(*columns)`; `collections_from_csv` reads `zip(*rows)` back: the transposition itself
+is compared by the correspondence `csv_series`, not modelled.) -/
+
+/-- The layout flag `meta_per_row` of `collections_to_csv` from the metadata sizes of the members
+    (`are_metadatas_aligned`: every member as many items as the first; `header_len = 2 + that size`
+    when aligned, else 3; `meta_per_row = header_len != 3`). -/
+def csvLayout : List Nat → Bool
+  | [] => true
+  | n :: r => r.all (· == n) && n != 1
+
+/-- The columns of the header block (without the analysis-period / datetime column): every member's own
+    CSV strings under the shared layout flag. -/
+def csvColumns (num : Option Num → String) (descr : Option (List (Key × PyVal)) → String)
+    (hs : List CsvHdr) : List (List String) :=
+  hs.map (CsvHdr.write num descr (csvLayout (hs.map (·.md.length))))
+
+/-- `collections_from_csv`: every column read on its own. -/
+def csvReadColumns (cols : List (List String)) : Option (List CsvHdr) := cols.mapM CsvHdr.read
+
+#guard csvLayout [2, 2, 2] = true
+#guard csvLayout [2, 3] = false
+#guard csvLayout [1, 1] = false
+#guard csvLayout [0, 0] = true
+#guard csvLayout [3] = true
+
+/-- Executable: the headers of a series through one CSV file (`none`: a metadata value whose text is not
+    modelled); the layout flag and every member's header as read back.  `collections_to_csv` writes
+    `str(data_collections[0].header.analysis_period)` once and `collections_from_csv` hands that period to
+    every column: every member comes back under the FIRST member's period (finding
+    C07-csv-one-period-per-file). -/
+def Hdr.csvSeries (hs : List Hdr) : Option (Bool × List (Option Hdr)) :=
+  let perRow := csvLayout (hs.map (·.metadata.length))
+  (hs.mapM (Hdr.csvRoundTrip perRow)).map fun l =>
+    (perRow, l.map fun o => o.map fun h => match hs.head? with
+      | some h0 => { h with ap := h0.ap }      -- the file has ONE period cell: the first member's (as the code is)
+      | Option.none => h)
+
 end Codec
